@@ -158,6 +158,18 @@ package parser
 //@ pred ImpOK(d *impData) = d == nil || ((forall k int :: {d.texts[k]} (0 <= k && k < len(d.texts)) ==> TextSlotOK(d.texts[k]))
 //@     && (forall k int :: {d.movements[k]} (0 <= k && k < len(d.movements)) ==> MoveSlotOK(d.movements[k])))
 
+// ---- hoisting tables (C06): every generated text / movement definition is registered under its own content, no two
+// definitions have the same content, and there are as many definitions as registered contents ----
+//@ pred TKeyOf(t ast.Text) = mk(parser.textKey, t.Value, t.StringType)
+//@ pred TextTableOK(p *Parser) = len(p.inlineTexts) == len(p.inlineTextsSet)
+//@   && (forall k int :: {p.inlineTexts[k]} (0 <= k && k < len(p.inlineTexts)) ==> (indom(p.inlineTextsSet, TKeyOf(p.inlineTexts[k])) && p.inlineTextsSet[TKeyOf(p.inlineTexts[k])] == p.inlineTexts[k].Name && !p.inlineTexts[k].IsGlobal))
+//@   && (forall a int, b int :: {p.inlineTexts[a], p.inlineTexts[b]} (0 <= a && a < b && b < len(p.inlineTexts)) ==> TKeyOf(p.inlineTexts[a]) != TKeyOf(p.inlineTexts[b]))
+//@ pred MoveTableOK(p *Parser) = len(p.inlineMovements) == len(p.inlineMovementsSet)
+//@   && (forall k int :: {p.inlineMovements[k]} (0 <= k && k < len(p.inlineMovements)) ==> (allocated(p.inlineMovements[k]) && allocated(p.inlineMovements[k].Name)
+//@        && indom(p.inlineMovementsSet, MovKey(p.inlineMovements[k].MovementCommands)) && p.inlineMovementsSet[MovKey(p.inlineMovements[k].MovementCommands)] == p.inlineMovements[k].Name.Value
+//@        && p.inlineMovements[k].Scope == token.LOCAL))
+//@   && (forall a int, b int :: {p.inlineMovements[a], p.inlineMovements[b]} (0 <= a && a < b && b < len(p.inlineMovements)) ==> MovKey(p.inlineMovements[a].MovementCommands) != MovKey(p.inlineMovements[b].MovementCommands))
+
 //@ func (d *impData) add
 //@   modifies d.texts, d.movements
 //@   ensures [C06:slot-add] (old(ImpOK(d)) && ImpOK(other)) ==> ImpOK(d)
@@ -237,6 +249,8 @@ package parser
 
 //@ func (p *Parser) addImplicitTexts
 //@   include TopFrame
+//@   requires [C06:text-table] TextTableOK(p)
+//@   ensures [C06:text-table] TextTableOK(p)
 //@   ensures [C06:args-len] forall c *ast.CommandStatement :: {c.Args} len(c.Args) == old(len(c.Args))
 //@   loopinv [C06:args-len-inv] forall c *ast.CommandStatement :: {c.Args} len(c.Args) == old(len(c.Args))
 //@   loopinv [C06:slot-inv] forall k int :: {texts[k]} (0 <= k && k < len(texts)) ==> TextSlotOK(texts[k])
@@ -244,6 +258,20 @@ package parser
 //@   ensures [C20:stack-balanced] SameStack(p.breakStack, old(p.breakStack)) && SameStack(p.continueStack, old(p.continueStack))
 //@   loopinv [C20:stack-balanced-inv] SameStack(p.breakStack, old(p.breakStack)) && SameStack(p.continueStack, old(p.continueStack))
 //@   modifies fields(p.inlineTextsSet), fields(p.inlineTextCounts), fields(p.inlineMovementsSet), fields(p.inlineMovementCounts), allof(ast.CommandStatement.Args)
+//@   loop 1
+//@     invariant [C06:text-table-inv] TextTableOK(p)
+// one record per turn: its argument slot receives the label registered for its content; a content seen for the first
+// time gets the next number of its owning script and exactly one new definition carrying that content (C06, C16: and
+// the token of the literal itself)
+//@     transition [C06,C16:hoist-text] prev(indom(p.inlineTextsSet, mk(parser.textKey, texts[$i].text.Literal, texts[$i].stringType)))
+//@       ? (p.inlineTexts == prev(p.inlineTexts) && texts[prev($i)].command.Args[texts[prev($i)].argPos] == prev(p.inlineTextsSet[mk(parser.textKey, texts[$i].text.Literal, texts[$i].stringType)]))
+//@       : (len(p.inlineTexts) == len(prev(p.inlineTexts)) + 1
+//@          && p.inlineTexts[len(prev(p.inlineTexts))].Name == sprintf("%s_Text_%d", texts[prev($i)].scriptName, prev(indom(p.inlineTextCounts, texts[$i].scriptName) ? p.inlineTextCounts[texts[$i].scriptName] : 0))
+//@          && p.inlineTexts[len(prev(p.inlineTexts))].Value == texts[prev($i)].text.Literal && p.inlineTexts[len(prev(p.inlineTexts))].StringType == texts[prev($i)].stringType
+//@          && p.inlineTexts[len(prev(p.inlineTexts))].Token == texts[prev($i)].text && !p.inlineTexts[len(prev(p.inlineTexts))].IsGlobal
+//@          && texts[prev($i)].command.Args[texts[prev($i)].argPos] == p.inlineTexts[len(prev(p.inlineTexts))].Name
+//@          && indom(p.inlineTextCounts, texts[prev($i)].scriptName)
+//@          && p.inlineTextCounts[texts[prev($i)].scriptName] == prev(indom(p.inlineTextCounts, texts[$i].scriptName) ? p.inlineTextCounts[texts[$i].scriptName] : 0) + 1)
 //@ end
 
 //@ func (p *Parser) addImplicitMovements
